@@ -13,12 +13,13 @@ import (
 	"testing"
 	"time"
 
+	"verif/crashh"
 	"verif/hist"
 	"verif/vlib"
 )
 
 func TestCheck(t *testing.T) {
-	hist.ServeIfWorker(t)
+	hist.ServeIfWorker2(t, crashh.ServeCase(t))
 	if f := os.Getenv("VERIF_REPLAY"); f != "" {
 		hist.Replay(t, f)
 	}
@@ -33,6 +34,9 @@ func TestCheck(t *testing.T) {
 		jobs[1].Depth, jobs[1].Budget = 6, 20*time.Minute
 	}
 	cov := hist.RunJobs(run, jobs)
-	run.Finish(cov, append(hist.CommonAssumptions,
-		"Crash points inside the drop are enumerated by the C05 check (histories H12/H13), not here."))
+	// Crash points inside the drop: on the primary (nothing, a kept journal, an emptied or checkpointed log next to the
+	// database file, both journal modes) and on a replica applying the deletion.
+	cov["crash_points_inside_the_drop"] = crashh.RunAll(run, func(h string) bool { return h == "H12-drop" || h == "H13-replica-tombstone" })
+	run.Finish(cov, append(append(hist.CommonAssumptions, crashh.Assumptions...),
+		"Crash points inside the drop are the histories H12 and H13 of the crash enumeration shared with the C05 check."))
 }
